@@ -277,3 +277,31 @@ def innermost_loop(fn, bid):
         if bid in body and (best is None or len(body) < len(best)):
             best = body
     return best
+
+
+def through_callees(prog, fn, pred, depth=3, _memo=None):
+    """A statement predicate that also accepts a call to a repository function
+    all of whose entry-to-exit paths pass a statement satisfying the predicate
+    (recursively): extracting a helper does not change what a must-pass rule
+    sees."""
+    memo = _memo if _memo is not None else {}
+
+    def callee_ok(g, d):
+        key = (g.tu, g.name)
+        if key in memo:
+            return memo[key]
+        memo[key] = False  # recursion guard
+        sub = lambda s: pred(s) or (d > 0 and any_callee(g, s, d - 1))
+        ok, _ = all_paths_pass(g, "entry", "exit", sub)
+        memo[key] = ok
+        return ok
+
+    def any_callee(f, s, d):
+        for c in ir.calls_in(s):
+            nm = c.get("fn")
+            g = prog.resolve(nm, f) if nm else None
+            if g is not None and g.blocks and callee_ok(g, d):
+                return True
+        return False
+
+    return lambda s: pred(s) or any_callee(fn, s, depth)
